@@ -2,6 +2,7 @@ package client
 
 import (
 	"fmt"
+	"github.com/mimecast/dtail/internal/vhook"
 	"strconv"
 	"strings"
 
@@ -70,6 +71,7 @@ func (a *Aggregate) Aggregate(message string) error {
 	}
 	// Re-init local group (make it empty again).
 	a.group.InitSet()
+	vhook.Point("mapr.cli.merge", a.server, groupKey)
 	return nil
 }
 
